@@ -182,7 +182,7 @@ class Model(object):
                 prev = role
                 inverse = invert(role)
                 role = invert(inverse)
-                if prev == role:
+                if prev == role or self._has_role(role):
                     break
         return role
 
